@@ -152,6 +152,15 @@ def fixed_worlds(ctx):
     execs = [(b'TestTemplateY', [(1, Call('yaml', b'v: %d\n' % i, 's')) for i in range(3)] + [(1, Call('json', b'{"v": 1}', 's'))])]
     worlds.append(mk('c04-template-docs', execs, {(0, 0): Call('yaml', b'DATA_DIR: ${HOME}/data\nprice: $10\n', 's'), (0, 1): Call('yaml', b'a: $1\n---\nb: $PATH\n', 'b'),
                                                   (0, 3): Call('json', b'{"v": "$1 ${name} $name"}', 's')}))
+    # the new value differs from the stored one ONLY in a line that a coarser-than-bytes comparison (32-bit hash,
+    # prefix, length, case folding, ...) takes for the same: it differs, so the updating run rewrites it
+    import collide, random
+    rr = random.Random(4)
+    docs = [d for d in collide.deterministic_documents(rr, per_class=1, sizes=(1, 12)) if not any(l.endswith(b'\r') for l in (d[1] + b'\n' + d[2]).split(b'\n'))]
+    for i in range(0, len(docs), 6):
+        chunk = docs[i:i + 6]
+        execs = [(b'TestTwin%d' % (i // 6), [(1, Call('snap', ta)) for _, ta, _ in chunk])]
+        worlds.append(mk('c04-twin-lines-%d' % (i // 6), execs, {(0, k): Call('snap', tb) for k, (_, _, tb) in enumerate(chunk)}, UPD_MODES[(i // 6) % len(UPD_MODES)]))
     for mode in ('all', 'odd', 'even'):
         execs = [(b'TestA', [(1, Call('snap', b'a one')), (1, Call('snap', b'a\ntwo\n'))]), (b'TestB', [(1, Call('snap', b'b one')), (1, Call('snap', b'---\nb two'))])]
         worlds.append(mk('c04-crlf-%s' % mode, execs, {(0, 1): Call('snap', b'a\nTWO\nlonger\n'), (1, 0): Call('snap', b'')}, UPD_MODES[1], crlf=mode))
